@@ -1,4 +1,4 @@
-import Cpppo.Proofs.Serve
+import Cpppo.Proofs.SrvServe
 /-! Forward Open / connected requests / Forward Close through the server model. -/
 namespace Cpppo.Interop
 open Cpppo Cpppo.Logix Cpppo.Fields
